@@ -30,6 +30,8 @@ type Thread struct {
 	fr        *frame   // innermost frame (for diagnostics)
 	proc      int      // modelled OS process this goroutine belongs to (0 = host / harness)
 	killed    bool     // its process was killed: reaped by the scheduler
+	waitPos   string   // go-plugin source line of the operation it is blocked in
+	forced    *ChanV   // a select-send on an unbuffered channel handed its value to this (parked) receiver: it must take it
 }
 
 type opDesc struct{ kind, obj, pos string }
@@ -44,6 +46,7 @@ type transRec struct {
 }
 
 type ChanV struct {
+	reserved *Thread // the deposited value of an unbuffered rendezvous is for this receiver only
 	id       int
 	cap      int
 	buf      []Value
@@ -67,6 +70,7 @@ type Sched struct {
 	why     string
 	locks   map[string]bool
 	rw      map[string]*rwState
+	hangWhere string
 	wg      map[string]int
 	once    map[string]bool
 	exhaust bool
@@ -139,6 +143,7 @@ func (it *Interp) block(desc string, cond func() bool, deadlines func() []Value)
 	for !cond() {
 		t.cond = cond
 		t.waitDesc = desc
+		t.waitPos = it.curPos
 		if deadlines != nil {
 			t.deadlines = deadlines()
 		} else {
@@ -345,16 +350,19 @@ func (it *Interp) schedule() string {
 			if len(ds) == 0 {
 				onlyDaemons := true
 				desc := ""
+				where := ""
 				for _, t := range s.threads {
 					if !t.done && !t.daemon {
 						onlyDaemons = false
 						desc += fmt.Sprintf(" [%s blocked on %s]", t.name, t.waitDesc)
+						where += fmt.Sprintf(" [%s at %s]", t.name, t.waitPos)
 					}
 				}
 				if onlyDaemons {
 					s.why = "ok"
 				} else {
 					s.why = "HANG:" + desc
+					s.hangWhere = where
 				}
 				break
 			}
@@ -513,6 +521,9 @@ func (it *Interp) chanReadyRecv(c *ChanV) bool {
 		}
 		return false
 	}
+	if c.reserved != nil && c.reserved != it.sch.cur {
+		return c.closed && len(c.buf) == 0
+	}
 	return len(c.buf) > 0 || c.closed
 }
 
@@ -547,18 +558,21 @@ func (it *Interp) chanDeadlines(cs ...*ChanV) func() []Value {
 	}
 }
 
-func (it *Interp) hasReceiver(c *ChanV) bool {
+func (it *Interp) hasReceiver(c *ChanV) bool { return it.findReceiver(c) != nil }
+
+// findReceiver: a goroutine parked in a receive (or a select with a receive case) on c that is not yet committed
+func (it *Interp) findReceiver(c *ChanV) *Thread {
 	for _, t := range it.sch.threads {
-		if t.done || t == it.sch.cur {
+		if t.done || t.killed || t == it.sch.cur || t.forced != nil {
 			continue
 		}
 		for _, w := range t.recvOn {
 			if w == c {
-				return true
+				return t
 			}
 		}
 	}
-	return false
+	return nil
 }
 
 func (it *Interp) recv(c *ChanV, et types.Type, commaOk bool) Value {
@@ -568,6 +582,10 @@ func (it *Interp) recv(c *ChanV, et types.Type, commaOk bool) Value {
 	me.recvOn = []*ChanV{c}
 	it.block("recv", func() bool { return it.chanReadyRecv(c) }, it.chanDeadlines(c))
 	me.recvOn = nil
+	if me.forced == c {
+		me.forced = nil
+		c.reserved = nil
+	}
 	v, ok := it.chanRecv(c, et)
 	if commaOk {
 		return TupleV{v, ok}
@@ -630,6 +648,13 @@ func (it *Interp) selectOp(fr *frame, x *ssa.Select) Value {
 	}
 	ready := func() []int {
 		var r []int
+		if f := it.sch.cur.forced; f != nil { // a sender already handed us its value: that case is the one that fires
+			for i, s := range states {
+				if !s.send && s.c == f {
+					return []int{i}
+				}
+			}
+		}
 		for i, s := range states {
 			if s.send {
 				if s.c != nil && (s.c.closed || len(s.c.buf) < s.c.cap || (s.c.cap == 0 && len(s.c.buf) == 0 && it.hasReceiver(s.c))) {
@@ -697,7 +722,17 @@ func (it *Interp) selectOp(fr *frame, x *ssa.Select) Value {
 		if s.c.closed {
 			panic(&goPanic{msg: "send on closed channel"})
 		}
+		if s.c.cap == 0 { // rendezvous: the parked receiver is committed to this value
+			if rt := it.findReceiver(s.c); rt != nil {
+				rt.forced = s.c
+				s.c.reserved = rt
+			}
+		}
 		s.c.buf = append(s.c.buf, s.v)
+	}
+	if idx >= 0 && !states[idx].send && it.sch.cur.forced == states[idx].c {
+		it.sch.cur.forced = nil
+		states[idx].c.reserved = nil
 	}
 	return res
 }
